@@ -730,6 +730,7 @@ Proof.
     + split; [auto|]. split; [reflexivity|]. intros (_ & Hv).
       destruct (is_table (loaded s n0)) eqn:Et; [auto|]. exfalso. apply (Hv eq_refl fs). reflexivity.
     + rewrite (Ho n Hne). auto.
+  - inversion E; subst. simpl. auto.
 Qed.
 
 Lemma run_cons fuel s o h :
@@ -885,8 +886,8 @@ Proof. intros H. rewrite require_S. cbv zeta. now rewrite H. Qed.
 
 Lemma links_cfg s s' ns last : cfg_eq s s' -> links s ns last -> links s' ns last.
 Proof.
-  intros C. induction ns as [|n r IH]; cbn [links]; [auto|]. intros ((o & k & rest & Hs) & Hl).
-  split; [|auto]. exists o, k, rest. now rewrite (search_cfg s s' n C).
+  intros C. induction ns as [|n r IH]; cbn [links]; [auto|]. intros ((t & o & k & rest & Hs) & Hl).
+  split; [|auto]. exists t, o, k, rest. now rewrite (search_cfg s s' n C).
 Qed.
 
 Lemma cfg_eq_enter s n o : cfg_eq s (enter (set_loaded s n VSent) n o).
@@ -905,7 +906,7 @@ Lemma chain_loop n0 : forall r f s,
 Proof.
   induction r as [|n r IH]; intros f s Hne Hnd Hn0 Hl Hf H0 Hlen; [congruence|].
   destruct f as [|f]; [simpl in Hlen; lia|]. simpl hd.
-  destruct Hl as ((o & k & rest & Hs) & Hl).
+  destruct Hl as ((t & o & k & rest & Hs) & Hl).
   rewrite require_S. cbv zeta. rewrite (Hf n (or_introl eq_refl)), Hs.
   set (s2 := enter (set_loaded s n VSent) n o).
   assert (Hn0n : n0 <> n) by (intros ->; apply Hn0; now left).
@@ -945,7 +946,7 @@ Lemma self_require_is_loop_error_lemma s n0 r f :
              (forall m, ~ In m (n0 :: r) -> loaded s' m = loaded s m).
 Proof.
   intros Hnd Hl Hf Hlen. destruct f as [|f]; [simpl in Hlen; lia|].
-  destruct Hl as ((o & k & rest & Hs) & Hl).
+  destruct Hl as ((t & o & k & rest & Hs) & Hl).
   rewrite require_S. cbv zeta. rewrite (Hf n0 (or_introl eq_refl)), Hs.
   set (s2 := enter (set_loaded s n0 VSent) n0 o).
   inversion Hnd as [|? ? Hnin Hnd']; subst.
@@ -1034,6 +1035,17 @@ Proof.
     destruct c; [simpl in Hok; now destruct Hok|congruence].
 Qed.
 
+Lemma new_preload_guarded s ns keep :
+  state_guarded s -> loadable_in s ns ->
+  state_guarded (new_preload s keep) /\ loadable_in (new_preload s keep) ns.
+Proof.
+  intros (G1 & G2) HL. split; [split|].
+  - intros n l. simpl. destruct (memz n keep); [apply G1|discriminate].
+  - exact G2.
+  - intros n [Hn|Hn]; apply HL; [left|right; exact Hn].
+    simpl in Hn. destruct (memz n keep); [exact Hn|congruence].
+Qed.
+
 Lemma step_guarded fuel s ns o s' ob :
   state_guarded s -> loadable_in s ns -> op_ok ns o -> step fuel s o = (s', ob) ->
   state_guarded s' /\ loadable_in s' ns.
@@ -1052,6 +1064,7 @@ Proof.
   - destruct (register s n fs) as [s1 r] eqn:Er. inversion E; subst.
     destruct (register_effects _ _ _ _ _ Er) as (C & _).
     split; [eapply state_guarded_cfg|eapply loadable_in_cfg]; eauto.
+  - inversion E; subst. now apply new_preload_guarded.
 Qed.
 
 Lemma run_never_out_of_fuel_lemma ns fuel : (length ns < fuel)%nat -> forall h s,
